@@ -6,6 +6,7 @@ package rtcp
 import (
 	"encoding/binary"
 	"fmt"
+	"math"
 )
 
 // SDESType is the item type used in the RTCP SDES control packet.
@@ -112,6 +113,11 @@ func (s SourceDescription) Marshal() ([]byte, error) {
 
 	if len(s.Chunks) > countMax {
 		return nil, errTooManyChunks
+	}
+
+	// the header length field counts 32-bit words (minus one) in 16 bits
+	if s.MarshalSize() > 4*(math.MaxUint16+1) {
+		return nil, errWrongMarshalSize
 	}
 
 	hData, err := s.Header().Marshal()
